@@ -174,6 +174,87 @@ def tag_of(text, why_kind, req_path=None):
     return "sequence-differs"
 
 
+def source_const_in_place(repo):
+    """does ConstantReferenceApplier put the caller's own constant Symbol into the flat class (True: it is then
+    renamed/modified in place) or a deep copy of it (False)?  fail-closed: None"""
+    try:
+        mod = pyast.parse(open(repo + "/src/pymoca/tree.py").read())
+    except (OSError, SyntaxError) as e:
+        return None, "cannot parse: %s" % e
+    fn = None
+    for n in mod.body:
+        if isinstance(n, pyast.ClassDef) and n.name == "ConstantReferenceApplier":
+            for m in n.body:
+                if isinstance(m, pyast.FunctionDef) and m.name == "enterComponentRef":
+                    fn = m
+    if fn is None:
+        return None, "ConstantReferenceApplier.enterComponentRef not found"
+    tgt = pyast.dump(pyast.parse("self.extra_symbols[-1][str(tree)]").body[0].value).replace("Load()", "Store()", 1)
+    assigns = [n for n in pyast.walk(fn) if isinstance(n, pyast.Assign) and len(n.targets) == 1
+               and pyast.dump(n.targets[0]).replace("ctx=Store()", "ctx=X").replace("ctx=Load()", "ctx=X")
+               == pyast.dump(pyast.parse("self.extra_symbols[-1][str(tree)]").body[0].value).replace("ctx=Load()", "ctx=X")]
+    if len(assigns) != 1:
+        return None, "expected one assignment to extra_symbols[-1][str(tree)], found %d" % len(assigns)
+    v = pyast.dump(assigns[0].value)
+    plain = pyast.dump(pyast.parse("self.classes[-1].find_constant_symbol(tree)").body[0].value)
+    copied = pyast.dump(pyast.parse("copy.deepcopy(self.classes[-1].find_constant_symbol(tree))").body[0].value)
+    if v == plain:
+        return True, "ok"
+    if v == copied:
+        return False, "ok"
+    return None, "the symbol stored by ConstantReferenceApplier has an unknown shape"
+
+
+def gen_function_library(rng):
+    """functions calling functions (2-3 levels) in a package, called from models and from component types
+    (tree.py:660-712 pulled functions)"""
+    levels = rng.randint(2, 3)
+    a = rng.randint(2, 9)
+    lines = ["package Lib", "  function f0", "    input Real x;", "    output Real y;", "  algorithm",
+             "    y := %d.0 * x;" % a, "  end f0;"]
+    for i in range(1, levels):
+        lines += ["  function f%d" % i, "    input Real x;", "    output Real y;", "  protected", "    Real t = %d.0;" % i,
+                  "  algorithm", "    y := f%d(x) + t;" % (i - 1), "  end f%d;" % i]
+    lines += ["end Lib;"]
+    top = "Lib.f%d" % (levels - 1)
+    mid = "Lib.f%d" % rng.randrange(levels)
+    lines += ["model Tank", "  Real h;", "  Real q;", "equation", "  q = %s(h);" % top, "end Tank;",
+              "model Plant", "  Tank a;", "  Tank b;", "  Real total;", "equation", "  total = %s(a.q + b.q);" % top, "end Plant;",
+              "model Other", "  Real z;", "equation", "  z = %s(2.0);" % mid, "end Other;"]
+    models = [["Tank"], ["Plant"], ["Other"]]
+    kinds = ["flatten", "flatten", rng.choice(["casadi", "sympy", "xml"])]
+    seqs = []
+    for _ in range(8):
+        seqs.append([[rng.choice(kinds), rng.choice(models)] for _ in range(rng.randint(2, 3))])
+    seqs.insert(0, [["flatten", ["Plant"]], ["flatten", ["Plant"]]])
+    seqs.insert(1, [["flatten", ["Tank"]], ["flatten", ["Plant"]]])
+    return "\n".join(lines) + "\n", seqs
+
+
+def gen_constant_mod_library(rng):
+    """a constant referenced by DOTTED name from one model and MODIFIED by others (component modification, extends
+    modification); the user of the constant is requested first (tree.py:441-561, 583-653)"""
+    g, g2, m = rng.randint(2, 9), rng.randint(2, 9), rng.randint(2, 9)
+    inpkg = rng.random() < 0.4
+    lines = (["package K"] if inpkg else []) + ["model Body", "  constant Real g = %d.81;" % g, "  parameter Real m = %d.0;" % m,
+             "  Real f;", "equation", "  f = m * g;", "end Body;"] + (["end K;"] if inpkg else [])
+    B = "K.Body" if inpkg else "Body"
+    lines += ["model Report", "  Real w;", "equation", "  w = %s.g * 1.0;" % B, "end Report;",
+              "model Moon", "  %s b(g = %d.62, m = 5.0);" % (B, g2), "end Moon;",
+              "model MoonBody", "  extends %s(g = %d.62);" % (B, g2), "end MoonBody;",
+              "model Both", "  %s b(g = %d.5);" % (B, g2), "  Real w;", "equation", "  w = %s.g + b.f;" % B, "end Both;"]
+    users = [["Report"], ["Both"]]
+    mods = [["Moon"], ["MoonBody"], ["Both"], B.split(".")]
+    kinds = ["flatten", "flatten", "flatten", rng.choice(["sympy", "xml", "casadi"])]
+    seqs = []
+    for u in users:
+        for x in mods:
+            seqs.append([["flatten", u], [rng.choice(kinds), x]])
+    rng.shuffle(seqs)
+    seqs = seqs[:6] + [[[rng.choice(kinds), rng.choice(users + mods)] for _ in range(3)] for _ in range(3)]
+    return "\n".join(lines) + "\n", seqs
+
+
 def source_star_descends(repo):
     """does the unqualified-import stage of Class._find_class look the rest of a dotted name up inside the class
     it found (True), or return that class whatever follows (False)?  fail-closed: None"""
@@ -257,10 +338,13 @@ def run(ctx):
     ctx.notes["star_descends_flag"] = {"value": sd, "how": sdwhy,
                                        "theorem": "C05_sequences" if sd else "C05_sequences_carved (+ known finding for dotted names)"}
     ctx.oblige("tie:unqualified-import stage of _find_class has a modelled shape", sd is not None, sdwhy)
+    ci, ciwhy = source_const_in_place(core.REPO)
+    ctx.notes["constants_in_place_flag"] = {"value": ci, "how": ciwhy}
+    ctx.oblige("tie:ConstantReferenceApplier has a modelled shape", ci is not None, ciwhy)
     thorough = ctx.tier == "thorough"
     cases = []
     # generated libraries
-    n_lib = ctx.scaled(13, 100)
+    n_lib = ctx.scaled(11, 100)
     for i in range(n_lib):
         lib = gen_library(ctx.rng)
         kinds = ["flatten"]
@@ -290,6 +374,13 @@ def run(ctx):
     for i in range(ctx.scaled(3, 20)):
         text, seqs = gen_dotted_import_library(ctx.rng)
         cases.append({"kind": "lib", "src": "generated-dotted-imports", "text": text, "snap": 2, "first_seqs": seqs,
+                      "auto": {"seed": ctx.rng.randrange(1 << 30), "kinds": ["flatten"], "max_reqs": 6,
+                               "n2": ctx.scaled(2, 8), "n3": ctx.scaled(1, 4)}})
+    # functions calling functions; constants referenced by dotted name and modified elsewhere
+    for i in range(ctx.scaled(4, 24)):
+        text, seqs = (gen_function_library if i % 2 == 0 else gen_constant_mod_library)(ctx.rng)
+        cases.append({"kind": "lib", "src": "generated-functions" if i % 2 == 0 else "generated-constant-mods", "text": text,
+                      "snap": 2, "first_seqs": seqs,
                       "auto": {"seed": ctx.rng.randrange(1 << 30), "kinds": ["flatten"], "max_reqs": 6,
                                "n2": ctx.scaled(2, 8), "n3": ctx.scaled(1, 4)}})
     # every test model
@@ -331,7 +422,7 @@ def run(ctx):
         cases.append(gen_casadi_cli(ctx.rng, i))
     n_cli += n_cli_casadi
     # lookup model: real _find_class (with the import memo being written) vs Model/C05_frame.v `find`
-    for i in range(ctx.scaled(9, 80)):
+    for i in range(ctx.scaled(8, 80)):
         text = [gen_import_library(ctx.rng)[0], gen_library(ctx.rng)["text"], gen_dotted_import_library(ctx.rng)[0]][i % 3]
         cases.append({"kind": "find", "text": text, "seed": ctx.rng.randrange(1 << 30), "max": ctx.scaled(30, 60)})
     try:
@@ -394,12 +485,12 @@ def run(ctx):
             nm = Names()
             for w in ws:
                 wcount[KINDS[w[1]]] += 1
-            enc.append("(%s, %s, %s)" % (cq_bool(bool(cp)), cq_list([cq_nat(nm(x)) for x in r[1]]),
+            enc.append("(%s, %s, %s, %s)" % (cq_bool(bool(cp)), cq_bool(ci is not False), cq_list([cq_nat(nm(x)) for x in r[1]]),
                                         cq_list(["(%s, %s)" % (cq_list([cq_nat(nm(x)) for x in w[0]]), KINDS[w[1]])
                                                  for w in ws])))
             meta.append((ci, r, ws))
     bad = core.coq_eval_cases(ctx, "writes", "From PV Require Import Lib.ObjGraph Model.C05_frame.\nImport ListNotations.\n",
-                              "bool * path * list (path * wkind)", enc, "check_case", shard=150)
+                              "bool * bool * path * list (path * wkind)", enc, "check_case", shard=150)
     ctx.oblige("correspondence:writes-to-parsed-tree-within-model-footprint", bad == [],
                "requests with a write outside the allowed set: %s" %
                (None if bad is None else [(cases[meta[j][0]].get("src"), meta[j][1], [w for w in meta[j][2] if w[1] == 3][:3])
